@@ -121,11 +121,56 @@ func verifQueueOf(c *udpMuxedConn) []verifQueued {
 
 func verifUnderlying(h net.PacketConn) *udpMuxedConn {
 	sp, _ := h.(*sharedPacketConn)
+	if ap, ok := h.(*sharedAddrPortConn); ok { // the AddrPort flavour wraps a plain shared handle
+		sp = ap.sharedPacketConn
+	}
 	if sp == nil {
 		return nil
 	}
 	c, _ := sp.underlying.(*udpMuxedConn)
 	return c
+}
+
+// verifMuxSocketAP: the same shared socket, additionally offering the
+// netip.AddrPort read/write methods (as *net.UDPConn does): the mux then hands
+// out sharedAddrPortConn handles and prefers the AddrPort paths.
+type verifMuxSocketAP struct{ *verifMuxSocket }
+
+func (s verifMuxSocketAP) ReadFromAddrPort(p []byte) (int, netip.AddrPort, error) {
+	n, from, err := s.verifMuxSocket.ReadFrom(p)
+	if err != nil {
+		return 0, netip.AddrPort{}, err
+	}
+	ua, _ := from.(*net.UDPAddr)
+	return n, ua.AddrPort(), nil
+}
+
+func (s verifMuxSocketAP) WriteToAddrPort(p []byte, a netip.AddrPort) (int, error) {
+	return s.verifMuxSocket.WriteTo(p, net.UDPAddrFromAddrPort(a))
+}
+
+func verifNewMuxAP() (*UDPMuxDefault, *verifMuxSocket) {
+	sock := &verifMuxSocket{in: make(chan verifInDatagram, 8), local: &net.UDPAddr{IP: net.IPv4(10, 0, 0, 1).To4(), Port: 5000}}
+	m := NewUDPMuxDefault(UDPMuxParams{Logger: verifNopLogger{}, UDPConn: verifMuxSocketAP{sock}})
+	return m, sock
+}
+
+// verifHandleWrite / verifHandleRead use the AddrPort methods of a handle when
+// it has them (what candidateBase does), the net.Addr ones otherwise.
+func verifHandleWrite(h net.PacketConn, p []byte, to *net.UDPAddr) (int, error) {
+	if ap, ok := h.(AddrPortReaderWriter); ok {
+		return ap.WriteToAddrPort(p, to.AddrPort())
+	}
+	return h.WriteTo(p, to)
+}
+
+func verifHandleRead(h net.PacketConn, p []byte) (int, error) {
+	if ap, ok := h.(AddrPortReaderWriter); ok {
+		n, _, err := ap.ReadFromAddrPort(p)
+		return n, err
+	}
+	n, _, err := h.ReadFrom(p)
+	return n, err
 }
 
 var verifMuxUfrags = []string{"u0", "u1"}
